@@ -120,10 +120,12 @@ def segment(stream, mode):
     return [stream[i:i + k] for i in range(0, len(stream), k)]
 
 
-def run_stream(state, stream, mode=0, file_backed=True):
+def run_stream(state, stream, mode=0, file_backed=True, gone=False):
     """Execute one fuzz case; raises Violation if an oracle clause fails.  Returns info dict."""
     role, prefix, engaged = STATES[state]
     case = {'state': state, 'stream': stream, 'mode': mode}
+    if gone:
+        case['gone'] = True
     actions = []
     for s in prefix:
         if s[0] == 'burst':
@@ -134,6 +136,7 @@ def run_stream(state, stream, mode=0, file_backed=True):
     segs = segment(stream, mode)
     if state == 'Sta6-sending':
         actions.append({'k': 'user', 'prim': convs.user_prim({'msg': convs.store_rq_pdus(2, pc_id=3)})})
+    first_hostile = len(actions)
     for i, sg in enumerate(segs):
         actions.append({'k': 'seg', 'data': sg, 'eager': i > 0 or state == 'Sta6-sending'})
     if state in ('Sta2-accepting', 'Sta2-serving'):
@@ -152,6 +155,10 @@ def run_stream(state, stream, mode=0, file_backed=True):
     #  peer is longer than what this side announced - tolerated or refused, it is handled in an orderly way)
     if (len(stream) + mode) % 3 == 1:
         kw['max_pdu'] = 48
+    if gone:
+        # the peer sent its bytes and went away (crashed, reset the connection): they are still delivered, but whatever
+        # the provider writes from then on fails with ECONNRESET - its own A-ABORT included
+        kw['write_fault_from'] = first_hostile
     sim = simnet.Sim(role, actions, budget=6000 + 60 * len(actions) + 8 * len(stream) + (len(stream) // 6 if 'max_pdu' in kw else 0), **kw)
     sim.run()
     # state reached by the prefix (sanity of the harness, not of the library)
@@ -202,7 +209,7 @@ def run_stream(state, stream, mode=0, file_backed=True):
     frames, rest = refpdu.split_stream(stream)
     hostile_first = bool(frames) and (mutate.certainly_undecodable(frames[0]) or
                                       (mutate.invalid_pdata(frames[0]) and state != 'Sta13'))
-    if hostile_first:
+    if hostile_first and not gone:
         # PDUs written after the prefix
         npre = {'Sta2': 0, 'Sta2-accepting': 0, 'Sta2-serving': 0, 'Sta3': 0, 'Sta5': 1, 'Sta6-acc': 1, 'Sta6-req': 1, 'Sta6-sending': 1, 'Sta7': 2, 'Sta8': 1, 'Sta13': 2,
                 'Sta6-midmsg': 1, 'Sta6-cmd-file': 1, 'Sta6-data-file': 1, 'Sta6-cmd-mem': 1, 'Sta6-data-mem': 1, 'Sta9': 2, 'Sta10': 2, 'Sta11': 3, 'Sta12': 2}[state]
@@ -225,10 +232,10 @@ def run_stream(state, stream, mode=0, file_backed=True):
     return {'frames': len(frames), 'rejected': rejected, 'hostile_first': hostile_first, 'points': sim.points}
 
 
-def do_case(ctx, state, stream, mode, label, name=''):
-    key = (state, hashlib.sha1(stream).hexdigest(), mode)
+def do_case(ctx, state, stream, mode, label, name='', gone=False):
+    key = (state, hashlib.sha1(stream).hexdigest(), mode) + (('gone',) if gone else ())
     try:
-        info = run_stream(state, stream, mode)
+        info = run_stream(state, stream, mode, gone=gone)
     except Violation as v:
         ctx.fail(v.key, v.what, v.case)
         ctx.case(key, True, labels=[label, 'state=' + state, 'violating'])
@@ -304,6 +311,9 @@ def run_mutators(ctx, job):
             if not job['all_states'] and (i + si) % 2 and not name.startswith(('flood-', 'rq-huge-invalid')):
                 continue
             do_case(ctx, state, stream, (i + si) % 4, 'mutator:' + name.split(':')[-1].split('@')[0].split('=')[0], name)
+            if len(stream) < 4000 and (job['all_states'] or (i + si) % 3 == 0):
+                # the same bytes from a peer that is gone by the time the provider answers: every write fails
+                do_case(ctx, state, stream, (i + si) % 4, 'mutator:' + name.split(':')[-1].split('@')[0].split('=')[0], name, gone=True)
 
 
 def run_random(ctx, n):
@@ -334,13 +344,15 @@ def run_random(ctx, n):
                 parts.append(refpdu.enc_pdu(draw(g.any_pdu(strict=True, free_order=True, allow_big=False))))
         return b''.join(parts)
 
-    strat = st.tuples(st.sampled_from(STATE_NAMES), stream(), st.integers(0, 6))
+    strat = st.tuples(st.sampled_from(STATE_NAMES), stream(), st.integers(0, 6), st.integers(0, 3))
 
     def fn(value):
-        state, data, mode = value
-        info = run_stream(state, data, mode)
-        ctx.case((state, hashlib.sha1(data).hexdigest(), mode), info['rejected'] > 0,
-                 labels=['random', 'state=' + state], sample={'state': state, 'stream': data, 'mode': mode})
+        state, data, mode, g = value
+        gone = g == 0
+        info = run_stream(state, data, mode, gone=gone)
+        ctx.case((state, hashlib.sha1(data).hexdigest(), mode, gone), info['rejected'] > 0,
+                 labels=['random', 'state=' + state] + (['peer gone: provider writes fail'] if gone else []),
+                 sample={'state': state, 'stream': data, 'mode': mode, 'gone': gone})
     hyp_search(ctx, strat, fn, n, name='C12-random', max_buckets=8)
 
 
@@ -373,9 +385,10 @@ def target(data):
         return
     state = c12.STATE_NAMES[data[0] %% len(c12.STATE_NAMES)]
     mode = data[1] %% 7
+    gone = (data[1] // 7) %% 4 == 3
     count[0] += 1
     try:
-        c12.run_stream(state, bytes(data[2:]), mode)
+        c12.run_stream(state, bytes(data[2:]), mode, gone=gone)
     except common.Violation as v:
         with open(os.path.join(OUT, 'viol_' + hashlib.sha1(v.key.encode()).hexdigest()[:12] + '.json'), 'w') as fh:
             json.dump({'key': v.key, 'what': v.what, 'case': common.to_jsonable(v.case)}, fh)
@@ -449,7 +462,7 @@ def run(ctx):
                 'of 9 valid PDUs (truncation with/without fixed length, every length field set to 0/1/len-1/len+1/'
                 'FFFF/FFFFFFFF, type bytes at every nesting level, control header, context id, non-ASCII bytes), 20 '
                 'semantically hostile P-DATA-TF PDUs, Hypothesis random mixes of garbage / valid / bit-flipped PDUs, '
-                'floods of 300-1500 valid messages and bursts of 1500 / 5000 of the smallest PDUs there are (empty P-DATA-TF, one-byte PDV, release request / response, unknown type) in every state; random segmentation, then peer close and 2 x 11.5 s; thorough adds an atheris coverage-guided '
+                'floods of 300-1500 valid messages and bursts of 1500 / 5000 of the smallest PDUs there are (empty P-DATA-TF, one-byte PDV, release request / response, unknown type) in every state; random segmentation, then peer close and 2 x 11.5 s; a third of the cases once more with a peer that is GONE once its bytes are out (every write of the provider, its A-ABORT included, fails with ECONNRESET); thorough adds an atheris coverage-guided '
                 'campaign; non-trivial = stream contains a complete frame the reference parser rejects; distinct by '
                 '(state, SHA-1(stream), segmentation)')
     ctx.assumptions = ['leniently accepted malformed frames are fine as long as the loop survives, output is '
@@ -470,4 +483,4 @@ def run(ctx):
 
 def replay(case):
     quiet_warnings()
-    run_stream(case['state'], case['stream'], case.get('mode', 0))
+    run_stream(case['state'], case['stream'], case.get('mode', 0), gone=bool(case.get('gone')))
